@@ -96,7 +96,7 @@ use fe2o3_amqp_types::performatives::Transfer;
 
 macro_rules! transfer_split {
     ($name:ident, $plen:expr) => {
-        // @tier thorough
+        // @tier probe
         // @timeout 2400
         // @mem 40
         // @unwind 8
